@@ -112,7 +112,14 @@ func jsonStr(s string) string {
 	return strings.ReplaceAll(string(b), "%", "%%")
 }
 
-func runCalls(in *bufio.Scanner, out *bufio.Writer, testdata, inputsPath string, workers int) error {
+func runCalls(in *bufio.Scanner, out *bufio.Writer, testdata, inputsPath string, workers int, modes string) error {
+	var aborts []bool
+	if strings.Contains(modes, "tolerant") {
+		aborts = append(aborts, false)
+	}
+	if strings.Contains(modes, "abort") {
+		aborts = append(aborts, true)
+	}
 	var base []baseFile
 	type job struct {
 		line string
@@ -170,7 +177,7 @@ func runCalls(in *bufio.Scanner, out *bufio.Writer, testdata, inputsPath string,
 					continue
 				}
 				var rs []callResult
-				for _, abort := range []bool{false, true} {
+				for _, abort := range aborts {
 					evs, feat, err := recordCall(data, abort, specWidths)
 					if err != nil {
 						setErr(err)
